@@ -25,10 +25,14 @@ def make_judges(ctx):
     Fxp = mon.Fxp
 
     def shift_judge(ev):
-        if ev.kind != 'method' or ev.op not in ('__lshift__', '__rshift__', '__ilshift__', '__irshift__'):
+        numpy_route = False
+        if ev.kind == 'method' and ev.op == '__array_ufunc__' and len(ev.args) == 4 and ev.args[0] in (np.left_shift, np.right_shift) \
+                and ev.args[1] == '__call__' and not ev.kwargs and ev.args[2] is ev.receiver:
+            numpy_route = True          # np.left_shift(x, n) / np.right_shift(x, n): where it gives a result, it is the result of the operator
+        elif ev.kind != 'method' or ev.op not in ('__lshift__', '__rshift__', '__ilshift__', '__irshift__'):
             return
         x = ev.pre[0] if ev.pre else None
-        n = ev.args[0] if ev.args else None
+        n = (ev.args[3] if numpy_route else ev.args[0]) if ev.args else None
         ntype = type(n).__name__
         if isinstance(n, np.ndarray) and n.ndim == 0 and n.dtype.kind in 'iu':
             n = n.item()
@@ -43,8 +47,13 @@ def make_judges(ctx):
         if any((not isinstance(k, int)) or k < lo or k > hi for k in x.codes):
             ctx.skip('shift:operand holds an out-of-range code (C02)')
             return
-        left = 'lshift' in ev.op
+        left = (ev.args[0] is np.left_shift) if numpy_route else ('lshift' in ev.op)
         mode = x.shifting
+        if ev.exc is not None and numpy_route:
+            ctx.skip('shift:the NumPy function is not supported for this operand (an error, not a wrong result)')
+            return
+        if numpy_route:
+            ctx.floor_hit(('numpy-function', 'L' if left else 'R', mode))
         if ev.exc is not None:
             ctx.violation('raises', '%s by %d on %s (%s) raised %s: %s' % (ev.op, n, R.dtype_fxp(*x.fmt()), mode, type(ev.exc).__name__, str(ev.exc)[:120]), ev, key='shift.raises')
             return
@@ -110,7 +119,8 @@ def make_judges(ctx):
 
 
 def floors(tier):
-    return [(d, m, c) for d in 'LR' for m in ('expand', 'trunc', 'keep') for c in ('0', '<w', '>=w')] + [('count-type', 'numpy', d, m) for d in 'LR' for m in ('expand', 'trunc', 'keep')]
+    return [(d, m, c) for d in 'LR' for m in ('expand', 'trunc', 'keep') for c in ('0', '<w', '>=w')] + [('count-type', 'numpy', d, m) for d in 'LR' for m in ('expand', 'trunc', 'keep')] + \
+           [('numpy-function', d, m) for d in 'LR' for m in ('expand', 'trunc', 'keep')]
 
 
 def cases(tier, seed):
@@ -193,6 +203,9 @@ def run_case(case, ctx):
             nn = n if (i + n) % 3 else rng.choice([np.int64(n), np.int32(n), np.uint8(n), np.arange(n + 1)[n], np.array(n)])
             _try(lambda: x << nn)
             _try(lambda: x >> nn)
+            if (i + n) % 2 == 0:
+                _try(lambda: np.left_shift(x, nn))
+                _try(lambda: np.right_shift(x, nn))
     # expanding shifts of single-bit codes whose shifted magnitude lands on 2^47 .. 2^54 (where sizes computed through floating point go wrong)
     if w >= 24 and mode == 'expand':
         for t in (47, 48, 49, 52, 53, 54):
